@@ -416,6 +416,17 @@ def optional_params(fn):
     return out
 
 
+def numeric_defaults(fn):
+    """[(parameter, expr)] for the parameters with a numeric literal default (`r4: float = 0`)"""
+    args = fn.args.args
+    defaults = [None] * (len(args) - len(fn.args.defaults)) + list(fn.args.defaults)
+    out = []
+    for a, d in zip(args, defaults):
+        if isinstance(d, ast.Constant) and isinstance(d.value, (int, float)) and not isinstance(d.value, bool):
+            out.append((a.arg, pyexpr.const(d.value)))
+    return out
+
+
 def _parse(rel, repo=None):
     path = os.path.join(repo or REPO, GROOVES, rel)
     return ast.parse(open(path).read())
@@ -515,6 +526,7 @@ def extract_solvers(repo=None):
         opt, adm = patf()
         info["params"] = [a.arg for a in fn.args.args]
         info["optional"] = opt
+        info["defaults"] = numeric_defaults(fn)
         declared = optional_params(fn)
         if sorted(declared) != sorted(opt):
             info["gaps"].append(f"{sname}: optional parameters are {declared}, the extractor expects {opt}")
@@ -641,6 +653,9 @@ def emit(ctx, pid="C04", repo=None):
                 table.append(dn)
             L.append("")
         short = sname.replace("solve_", "")
+        L.append(f"/-- numeric defaults of the parameters of `{sname}` -/")
+        L.append(f"def {short}_defaults : List (String × Expr) := [" + ", ".join(
+            f"({pyexpr.lean_str(k)}, {pyexpr.lean_expr(e)})" for k, e in info.get("defaults", [])) + "]")
         L.append(f"/-- decision table of `{sname}`: None-pattern of the optional parameters -> outcome -/")
         L.append(f"def {short}_decision : List (String × String) := [")
         L.append(",\n".join(f"  ({pyexpr.lean_str(p)}, {pyexpr.lean_str(lbl)})" for p, lbl in info["table"]) + "]")
@@ -668,6 +683,25 @@ def emit(ctx, pid="C04", repo=None):
                     f"({pyexpr.lean_str(k)}, {'none' if v is None else 'some ' + pyexpr.lean_expr(v)})" for k, v in a.items()) + "])")
         L.append("")
     L.append("def table : List (String × Expr) := [" + ", ".join(f"(\"{n}\", {n})" for n in table) + "]")
+    L.append("")
+    plumbs = [(oc.lean_name, bool(oc.calls), cname) for cname, info in classes.items()
+              for oc in info["patterns"].values() if oc.kind == "return"]
+    L.append("/-- the keyword arguments of every constructor pattern, by name -/")
+    L.append("def plumbing : List (String × List (String × Expr)) := [" + ", ".join(
+        f"(\"{n}\", {n})" for n, _, _ in plumbs) + "]")
+    L.append("/-- the solver-call arguments of every constructor pattern (absent = `None`) -/")
+    L.append("def plumbingCalls : List (String × List (String × Option Expr)) := [" + ", ".join(
+        f"(\"{n}_call\", {n}_call.2)" for n, c, _ in plumbs if c) + "]")
+    for cname in classes:
+        L.append(f"def plumbs_{cname} : List (List (String × Expr)) := [" + ", ".join(
+            n for n, _, c in plumbs if c == cname) + "]")
+    for cname in classes:
+        L.append(f"def calls_{cname} : List (List (String × Option Expr)) := [" + ", ".join(
+            f"{n}_call.2" for n, c, k in plumbs if k == cname and c) + "]")
+    L.append("/-- `table` plus every plumbing entry as `<plumb name>.<keyword>` (for the Float evaluation driver) -/")
+    L.append("def fullTable : List (String × Expr) :=")
+    L.append("  table ++ plumbing.flatMap (fun p => p.2.map (fun kv => (p.1 ++ \".\" ++ kv.1, kv.2)))")
+    L.append("    ++ plumbingCalls.flatMap (fun p => p.2.filterMap (fun kv => kv.2.map (fun e => (p.1 ++ \".\" ++ kv.1, e))))")
     L.append("")
     L.append(f"end Gen.{pid}")
     text = "\n".join(L) + "\n"
